@@ -24,11 +24,16 @@ pub fn prop() -> Prop {
                extreme: every function with an index/position argument x {i32::MIN, MIN+1, -len-1, -len, -1, 0, \
                len-1, len, len+1, MAX-1, MAX} (usize extremes for get_by_index) x arrays of length 0-5, as JSONB \
                and as text, results compared with the tree model computed in i64/i128, overflow checks on. \
+               numerals: every index / offset / literal position of a JSONPath text and every element of a key \
+               path text filled with the numerals at the ends of the i32, u32, i64 and u64 ranges (+-1, with and \
+               without a sign, 26 digits): parsing, and evaluation on arrays of length 0-3 when it parses, must \
+               return (overflow checks on). \
                Non-trivial = probe at depth >= 1000, or an argument at an end of the i32 range.",
         assumptions: &["an 8 MiB thread stack stands for the platform's default main-thread stack"],
         subs: vec![
             Sub { name: "depth", run: run_depth, replay: |j| replay_with::<Probe>(j, check_probe) },
             Sub { name: "extreme", run: run_extreme, replay: |j| replay_with::<Extreme>(j, check_extreme) },
+            Sub { name: "numerals", run: run_numerals, replay: |j| replay_with::<(String, u64)>(j, check_numeral_text) },
         ],
     }
 }
@@ -488,6 +493,83 @@ fn run_extreme(ctx: &mut Ctx) {
                         Ok(Ok(())) => ctx.record(|| c.to_j(), &obs),
                         Ok(Err(m)) => ctx.fail("extreme", c.to_j(), m),
                         Err(p) => ctx.fail("extreme", c.to_j(), format!("unexpected {}", p.describe())),
+                    }
+                }
+            }
+        }
+    }
+}
+
+
+// ---- numerals at the ends of the integer ranges, written in path and key-path texts ----------------
+
+const NUMERALS: &[&str] = &[
+    "0", "-0", "1", "-1", "2147483647", "2147483648", "-2147483647", "-2147483648", "-2147483649", "4294967295", "4294967296",
+    "9223372036854775807", "9223372036854775808", "-9223372036854775807", "-9223372036854775808", "-9223372036854775809",
+    "18446744073709551615", "18446744073709551616", "-18446744073709551615", "99999999999999999999999999", "-99999999999999999999999999",
+    "+1", "+2147483648", "1e400", "-1e400", "1e-400", "0.5e1", "00", "2147483647.0", "-2147483648.0",
+];
+const PATH_FORMS: &[&str] = &[
+    "$[A]", "$[last - A]", "$[last + A]", "$[last-A]", "$[last+A]", "$[A to B]", "$[last - A to last + B]", "$[A, B]", "$[0 to last - A]",
+    "$[*]?(@[A] == 1)", "$?(@ == A)", "$[*]?(@ > A && @ < B)", "$?(exists(@[last - A]))", "$[0][A]", "$.a[A to last - B]", "$ == A", "$[A] < B",
+    "$[last - A] == $[B]",
+];
+const KEYPATH_FORMS: &[&str] = &["{A}", "{a,A}", "{A,B}", "{ A , B }", "{0,A,\"B\"}"];
+
+pub fn check_numeral_text(c: &(String, u64), obs: &mut Obs) -> Result<(), String> {
+    let (text, len) = (&c.0, c.1);
+    obs.nt();
+    if text.starts_with('{') {
+        let r = nopanic(&format!("parse_key_paths({text:?})"), || jsonb::keypath::parse_key_paths(text.as_bytes()).map(|k| k.paths.len()))?;
+        obs.label_if(r.is_ok(), "keypath-accepted");
+        if r.is_ok() {
+            let doc = M::Arr((0..len).map(|i| M::Arr(vec![M::Num(N::U(i))])).collect()).enc();
+            nopanic(&format!("get_by_keypath({text:?})"), || {
+                let k = jsonb::keypath::parse_key_paths(text.as_bytes()).unwrap();
+                let _ = jsonb::get_by_keypath(&doc, k.paths.iter());
+                let mut buf = Vec::new();
+                let _ = jsonb::delete_by_keypath(&doc, k.paths.iter(), &mut buf);
+            })?;
+        }
+        return Ok(());
+    }
+    let ok = nopanic(&format!("parse_json_path({text:?})"), || jsonb::jsonpath::parse_json_path(text.as_bytes()).is_ok())?;
+    obs.label_if(ok, "path-accepted");
+    if ok {
+        let doc = M::Arr((0..len).map(|i| if i % 2 == 0 { M::Num(N::U(i)) } else { M::Arr(vec![M::Num(N::I(-1)), M::Num(N::U(1))]) }).collect()).enc();
+        for mode in [jsonb::jsonpath::Mode::All, jsonb::jsonpath::Mode::First, jsonb::jsonpath::Mode::Array, jsonb::jsonpath::Mode::Mixed] {
+            nopanic(&format!("select({text:?}, {mode:?}) on an array of {len}"), || {
+                let p = jsonb::jsonpath::parse_json_path(text.as_bytes()).unwrap();
+                let (mut d, mut o) = (Vec::new(), Vec::new());
+                let _ = jsonb::jsonpath::Selector::new(p, mode.clone()).select(&doc, &mut d, &mut o);
+            })?;
+        }
+        nopanic(&format!("path_exists / path_match({text:?})"), || {
+            let _ = jsonb::path_exists(&doc, jsonb::jsonpath::parse_json_path(text.as_bytes()).unwrap());
+            let _ = jsonb::path_match(&doc, jsonb::jsonpath::parse_json_path(text.as_bytes()).unwrap());
+        })?;
+    }
+    Ok(())
+}
+
+fn run_numerals(ctx: &mut Ctx) {
+    let mut k = 0usize;
+    for form in PATH_FORMS.iter().chain(KEYPATH_FORMS) {
+        let two = form.contains('B');
+        for a in NUMERALS {
+            for b in if two { NUMERALS } else { &NUMERALS[..1] } {
+                let text = form.replace('A', a).replace('B', b);
+                for len in [0u64, 3] {
+                    k += 1;
+                    if k % ctx.nworkers != ctx.worker || ctx.failure.is_some() {
+                        continue;
+                    }
+                    let c = (text.clone(), len);
+                    let mut obs = Obs::default();
+                    match guard(|| check_numeral_text(&c, &mut obs)) {
+                        Ok(Ok(())) => ctx.record(|| c.to_j(), &obs),
+                        Ok(Err(m)) => ctx.fail("numerals", c.to_j(), m),
+                        Err(p) => ctx.fail("numerals", c.to_j(), format!("unexpected {}", p.describe())),
                     }
                 }
             }
